@@ -26,7 +26,11 @@ def check_doc(acc, src, items):
     if exc is not None:
         acc.violation('parse', case, 'parsing succeeds', egram.exc_repr(exc), size)
         return
-    out = str(soup)
+    try:
+        out = str(soup)
+    except Exception as e:      # noqa: serialising a parsed tree must not fail
+        acc.violation('serialise-raises', case, src, egram.exc_repr(e), size)
+        return
     if out != src:
         acc.violation('roundtrip', case, src, out, size)
         return
